@@ -1363,6 +1363,7 @@ func (c *ReplicationModeConfig) adjust(meta *configMetaData) {
 	if !meta.IsDefined("replication-mode") || NormalizeReplicationMode(c.ReplicationMode) == "" {
 		c.ReplicationMode = "majority"
 	}
+	c.ReplicationMode = NormalizeReplicationMode(c.ReplicationMode)
 	c.DRAutoSync.adjust(meta.Child("dr-auto-sync"))
 }
 
